@@ -336,7 +336,10 @@ def op_collapse(w, ev, slot):
         if not norm and mgs == 1:
             tot_in = ref.m.sum(axis=ax)
             tot_out = e.m.sum(axis=ax)
-            if not np.allclose(tot_in, tot_out, rtol=1e-9, atol=0):
+            # tolerance relative to what was added up, not to the total:
+            # inexact values of both signs can cancel to almost nothing
+            scale = np.abs(ref.m).sum(axis=ax)
+            if not (np.abs(tot_in - tot_out) <= 1e-9 * scale).all():
                 w.fail('collapse.conservation', '%s totals %r became %r'
                        % (AXNAME[oax], tot_in.tolist(), tot_out.tolist()))
         return e
